@@ -161,6 +161,7 @@ type FuncVC struct {
 	frameT   map[string]modTarget
 	privCells map[*ssa.Alloc]bool // memo of privateCell (calls.go)
 	edgeHits map[*Clause]int // back-edge clauses: number of edges each was generated for
+	nCanary  int             // returns seen so far (exit canaries are sampled, driver.go)
 	frameAll bool
 	allocBoundTerm string
 	cardDone map[string]bool
